@@ -38,12 +38,13 @@ enum Kind : int {
   kSamePairS,      // S(A); S(A); g1 = move(g2): move-assign over an owning guard of the SAME lock (only in programs whose other threads
                    // request nothing but S on that lock, so that the two shared grants of one thread can never wait for each other)
   kTwoLockCompositeAssign,  // manipulator only, OptimisticLock: cA = PrepareRead(A); cB = PrepareRead(B); cA = move(cB)
+  kSelfMoveAssign,          // g = Lock*(); g = std::move(g); either outcome is accepted as long as ownership and grant agree (b: S/SIX/X)
   kKinds
 };
 const char *kKindName[] = {"S", "SIX", "X", "SIX->X", "X->SIX", "X->SIX->X", "SIX->X->SIX", "Opt{read;Verify}", "Opt{read;TryLockS}",
                            "Opt{read;TryLockSIX}", "Opt{read;TryLockX}", "PrepareRead{read;Verify}", "X(A);X(B);gA=move(gB)",
                            "empty-guard-ops", "S(A);S(A);g1=move(g2)",
-                           "PrepareRead(A);PrepareRead(B);cA=move(cB)"};
+                           "PrepareRead(A);PrepareRead(B);cA=move(cB)", "g=move(g)"};
 // Op fields: a = extra yields inside the body (0..3) / retries for optimistic ops
 //            b = guard manipulation bits (below)
 //            c = SetVersion request for the (last) X part: 0 default, >0 fresh advance, <0 republish code
@@ -65,13 +66,14 @@ enum Profile : int {
 enum Probe : int {
   pSJoinedWaitingGroup = 0, pUpgradeWaitedForS, pPrepFallbackS, pPrepNonOwning, pTryFailed, pTrySucceeded, pVerifyFailed,
   pVerifyOk, pConflictWaited, pTwoGrants, pVersionWrap, pDowngradeAdmittedS, pSectionsDone, pNodeRecycled,
-  pFinalLockX, pCompAssignOwnTarget, pCompAssignOwnSource, pProbes
+  pFinalLockX, pCompAssignOwnTarget, pCompAssignOwnSource, pSelfMoveReleased, pSelfMoveKept, pProbes
 };
 const char *const kProbeNames[] = {"s_request_waited_in_queue", "upgrade_waited_for_shared_holder", "prepare_read_took_shared_fallback",
                                    "prepare_read_returned_version", "trylock_failed", "trylock_succeeded", "verify_failed", "verify_ok",
                                    "request_waited_for_conflicting_holder", "manipulator_held_two_grants", "version_wrapped",
                                    "downgrade_admitted_shared", "sections_completed", "mcs_node_recycled",
-                                   "final_lockx_done", "composite_move_assigned_over_owning_target", "composite_move_assigned_from_owning_source", nullptr};
+                                   "final_lockx_done", "composite_move_assigned_over_owning_target", "composite_move_assigned_from_owning_source", "self_move_assignment_released_the_grant",
+                                   "self_move_assignment_kept_the_grant", nullptr};
 
 constexpr int kTagMcs = 1;
 constexpr int kNone = 0, kS = 1, kSIX = 2, kX = 3;
@@ -904,6 +906,53 @@ struct Runner {
     check_version_quiescent(B0, "release after move-assign");
   }
 
+  // self move-assignment of an owning guard.  Whether it releases the grant (the guard then owns nothing) or leaves everything as it
+  // was is the implementation's choice; what C07 fixes is that ownership and grant agree afterwards: a guard that converts to true
+  // still holds (nobody else gets a conflicting grant, one release at destruction), a guard that converts to false has released once.
+  template <int M>
+  void sec_self_move(LS &L, const Op &op)
+  {
+    using G = std::conditional_t<M == kS, SG, std::conditional_t<M == kSIX, SIXG, XG>>;
+    const char *api = M == kS ? "LockS" : (M == kSIX ? "LockSIX" : "LockX");
+    bool kept = false;
+    {
+      L.outstanding++;
+      CallInfo ci = pre_call(L, api, M);
+      G g = [&]() -> G {
+        if constexpr (M == kS) return L.lock->LockS();
+        else if constexpr (M == kSIX) return L.lock->LockSIX();
+        else return L.lock->LockX();
+      }();
+      granted(L, ci, M, fMoved, api, true);
+      expect_bool(g, true, "Lock-result");
+      if constexpr (M == kX) write_payload(L, 0); else read_payload_locked(L, 0, M, false);
+      // the ghost grant ends before the call that may release
+      if constexpr (M == kX) x_pre_release(L, g, 0, 0); else sx_pre_release(L, M, "self move-assignment");
+      G *alias = &g;
+      g = std::move(*alias);
+      post_call();
+      kept = static_cast<bool>(g);
+      if (kept) {
+        dsim::probe(pSelfMoveKept);
+        reg_begin(L, M, fMoved, "self move-assignment (guard still owns)");
+        hb_begin(L, M, "self move-assignment");
+        if constexpr (M == kX) write_payload(L, static_cast<int>(op.a)); else read_payload_locked(L, static_cast<int>(op.a), M, false);
+        if constexpr (M == kX) x_pre_release(L, g, 0, 0); else sx_pre_release(L, M, "release after self move-assignment");
+      } else {
+        dsim::probe(pSelfMoveReleased);
+        L.outstanding--;
+        released_by_move_assign();
+        dsim::op_begin("destroy guard emptied by self move-assignment", L.idx);
+      }
+    }
+    if (kept) {
+      if constexpr (M == kX) x_post_release(L); else sx_post_release(L);
+    } else {
+      post_call();
+    }
+    check_version_quiescent(L, "self move-assignment");
+  }
+
   // composite guards of two locks, whatever they own: cA = move(cB) releases A's shared grant if cA had one, cA then is what cB was
   void sec_two_lock_composite_assign(const Op &op)
   {
@@ -1303,6 +1352,11 @@ struct Runner {
         else sec_two_lock_assign(op);
         break;
       case kTwoLockCompositeAssign: sec_two_lock_composite_assign(op); break;
+      case kSelfMoveAssign:
+        if (op.b % 3 == 0) sec_self_move<kS>(L, op);
+        else if (op.b % 3 == 1 || A::kOpt) sec_self_move<kSIX>(L, op);  // X on OptimisticLock: the version timeline needs to know in
+        else sec_self_move<kX>(L, op);                                  // advance whether a call publishes, so it is left out
+        break;
       case kEmptyGuards: sec_empty(L, op); break;
       case kSamePairS: sec_same_pair_s(L, op); break;
       default: break;
@@ -1490,7 +1544,7 @@ void generate(Program &prog, dsim::Config &cfg, dsim::Rng &pr, dsim::Rng &cr, in
       break;
     case kGuards:
       set({{kSecS, 3}, {kSecSIX, 3}, {kSecX, 3}, {kSecSIXUp, 3}, {kSecXDown, 3}, {kSecXDownUp, 1}, {kSecSIXUpDown, 1}, {kEmptyGuards, 2},
-           {kTwoLockAssign, 0}});
+           {kTwoLockAssign, 0}, {kSelfMoveAssign, 2}});
       if (opt) set({{kOptTryS, 1}, {kOptTrySIX, 1}, {kOptTryX, 2}, {kPrepRead, 3}});
       manip_percent = 75;
       manipulator = pr.chance(1, 2);
